@@ -2,7 +2,7 @@
    Statements only, for ANY decidable total order of versions (functor parameter V); [Print
    Assumptions] is run on the instance at Z.  See DESIGN.md 4.1 for [pos], [den], [canonical]. *)
 From Coq Require Import Orders List Bool.
-From PG Require Import Model.Range Model.Instances Proofs.RangeCtors.
+From PG Require Import Model.Range Model.Instances Proofs.RangeCtors Proofs.GenEq.
 
 Module C10 (V : UsualOrderedTypeFull).
   Module Import P := RangeCtorsP V.
@@ -88,6 +88,17 @@ Module C10 (V : UsualOrderedTypeFull).
     forall a b, canonical a -> canonical b -> (is_disjoint a b = true <-> intersection a b = []).
   Proof. exact disjoint_iff_inter_empty. Qed.
 
+  (* tie to the source: the tables regenerated from src/range.rs by tools/translate.py on this run are
+     the tables of the model *)
+  Module GE := GenRangeEq V.
+  Theorem range_tables_match_source :
+    (forall s e, GE.G.gen_valid_segment s e = GE.M.valid_segment s e)
+    /\ (forall e s, GE.G.gen_end_before_start_with_gap e s = GE.M.end_before_start_with_gap e s)
+    /\ (forall l r, GE.G.gen_left_start_is_smaller l r = GE.M.left_start_is_smaller l r)
+    /\ (forall l r, GE.G.gen_left_end_is_smaller l r = GE.M.left_end_is_smaller l r)
+    /\ (forall a s, GE.G.gen_acc_end a s = GE.M.acc_end a s)
+    /\ (forall l r, GE.G.gen_inter_start l r = GE.M.inter_start l r).
+  Proof. exact GE.range_tables_match_source. Qed.
 End C10.
 
 Module C10Z := C10 ZV.
@@ -115,4 +126,5 @@ Print Assumptions C10Z.range_ext_eq.
 Print Assumptions C10Z.range_eqb_eq.
 Print Assumptions C10Z.range_subset_iff_inter_eq.
 Print Assumptions C10Z.range_disjoint_iff_inter_empty.
+Print Assumptions C10Z.range_tables_match_source.
 
